@@ -38,8 +38,12 @@ def _universe():
     t1, t2 = _short_id_collision('rsa1024a', 'rsa1024b')
     ks1, _ = K.pgpy_cert('rsa1024a', uid=pgpy.PGPUID.new('Short One', email='s1@example.org'), created=t1)
     ks2, _ = K.pgpy_cert('rsa1024b', uid=pgpy.PGPUID.new('Short Two', email='s2@example.org'), created=t2)
+    # N1, N2: names and comments that differ only in where their spaces are (different identifiers: a name is matched as it is written; only a
+    # fingerprint may be given with or without spaces)
+    kn1, _ = K.pgpy_cert('ecdsa_p384b', uid=pgpy.PGPUID.new('Jo Ann Lee', comment='night shift', email='jo.ann@example.org'), created=K.T0 + 2100)
+    kn2, _ = K.pgpy_cert('ecdsa_p521b', uid=pgpy.PGPUID.new('JoAnn Lee', comment='nights hift', email='joann@example.org'), created=K.T0 + 2200)
     return collections.OrderedDict([('A', ka.pubkey), ('B', kb.pubkey), ('C', kc), ('Dpub', kd.pubkey), ('Dsec', kd), ('E', ke), ('A2', ka2.pubkey), ('Epub', ke.pubkey),
-                                    ('S1', ks1.pubkey), ('S2', ks2.pubkey)]), (ka, kb, kc, kd, ke, ka2, ks1, ks2)
+                                    ('S1', ks1.pubkey), ('S2', ks2.pubkey), ('N1', kn1.pubkey), ('N2', kn2.pubkey)]), (ka, kb, kc, kd, ke, ka2, ks1, ks2, kn1, kn2)
 
 
 def _short_id_collision(n1, n2):
@@ -124,7 +128,7 @@ class Prop(object):
     ID = 'C19'
     LEVEL = 'model_checking'
     TECHNIQUE = 'explicit-state breadth-first search over load / unload histories on the real PGPKeyring (state = replayed history, deduplicated on model multiset + alias layout), run to closure of the object-only space; invariant in every state'
-    RULE = ('universe of 6 key objects (two public keys sharing name, comment and e-mail; one sharing only the e-mail; the public and the private half of one key; one key '
+    RULE = ('universe of 12 key objects (two public keys sharing name, comment and e-mail; two whose names and comments differ only in where their spaces are; two sharing a short id; one sharing only the e-mail; the public and the private half of one key; one key '
             'with two subkeys); menu: load object, unload (key obtained through keyring.key(identifier)), unload through a shared name / e-mail, and - depth-bounded - load '
             'from binary, armored text, file, list. The object-only space is explored to closure, blob loads to the depth bound. One state = one canonical '
             '(model multiset, alias layout); one transition = one real load / unload.')
@@ -138,7 +142,7 @@ class Prop(object):
     def units(self, tier, seed):
         u = []
         # (a) the clusters of keys that share identifiers, each explored to closure (the depth is only a safety cap)
-        for cl in (['A', 'B', 'C'], ['Dpub', 'Dsec', 'A'], ['A', 'B', 'E'], ['A', 'A2', 'B'], ['E', 'Epub', 'Dsec'], ['S1', 'S2', 'A']):
+        for cl in (['A', 'B', 'C'], ['Dpub', 'Dsec', 'A'], ['A', 'B', 'E'], ['A', 'A2', 'B'], ['E', 'Epub', 'Dsec'], ['S1', 'S2', 'A'], ['N1', 'N2', 'A']):
             for i in range(len(cl)):
                 u.append(('bfs', {'first': i, 'blobs': False, 'depth': 14, 'names': cl}))
         # (b) the whole universe, depth-bounded
